@@ -85,10 +85,15 @@ let run (args : (string * string) list) : string =
     add "counts" (ok (get args "pnodes" = string_of_int nn && get args "parcs" = get args "arcs"));
     (* the proved readers on the implementation's files *)
     let nnat = nat_of_int nn in
-    add "mseq" (ok (lab_read_seq le sr nnat lbits_all obits_all = Some ls));
-    add "mra" (ok (lab_read_ra_all le sr nnat lbits_all obits_all = Some ls));
-    add "mzip" (ok (read_zip_seq le cs p sr nnat gbits_all lbits_all obits_all = Some lg));
-    add "mzipra" (ok (read_zip_ra le cs p sr nnat gbits_all lbits_all obits_all = Some lg));
+    (* (the model readers recompute the bit position from list lengths, quadratic in the
+       stream length: for big files the bit-for-bit comparison with the model's streams
+       below and the implementation's own read-back stand alone) *)
+    if List.length lbits_all <= 50000 then begin
+      add "mseq" (ok (lab_read_seq le sr nnat lbits_all obits_all = Some ls));
+      add "mra" (ok (lab_read_ra_all le sr nnat lbits_all obits_all = Some ls));
+      add "mzip" (ok (read_zip_seq le cs p sr nnat gbits_all lbits_all obits_all = Some lg));
+      add "mzipra" (ok (read_zip_ra le cs p sr nnat gbits_all lbits_all obits_all = Some lg))
+    end;
     (* the implementation's own read-back *)
     let rstatus = get args "rstatus" in
     add "rstatus" (if rstatus = "ok" then "ok" else "FAIL(" ^ rstatus ^ ")");
@@ -112,8 +117,12 @@ let run (args : (string * string) list) : string =
        add "grt" (ok (lists = g));
        if lists = g then begin
          let sel = List.map (fun ((r, _), _) -> r.r_ref) rs in
+         let big = List.length lbits_all > 50000 in
          let (mg, mf) =
-           if starts path "comp_labeled" then
+           if big then
+             (* the closed form, proved equal to the state machine and to the parallel result *)
+             (Some (graph_bits le cs (encode_graph p N0 g sel)), lab_closed le sr lg)
+           else if starts path "comp_labeled" then
              (let ((gb, _), f) = comp_labeled le cs p sr lg sel in (Some gb, f))
            else begin
              let seglens = let rec go = function a :: (b :: _ as t) -> (b - a) :: go t | _ -> [] in go cuts in
